@@ -60,11 +60,14 @@ def name_sources(repo):
         if not repo.has(q):
             continue
         fn = repo.func(q)
+        defs = single_assignments(fn)
         for n in walk_shallow(fn):
-            if isinstance(n, ast.Assign) and len(n.targets) == 1 and isinstance(n.targets[0], ast.Name) \
-                    and n.targets[0].id == "funcname" and isinstance(n.value, (ast.JoinedStr, ast.BinOp)):
-                out.append((q, n))
-            elif isinstance(n, ast.keyword) and n.arg == "funcname" and isinstance(n.value, (ast.JoinedStr, ast.BinOp)):
+            if isinstance(n, ast.keyword) and n.arg == "funcname":
+                v = inline(n.value, defs, depth=2)
+                if isinstance(v, (ast.JoinedStr, ast.BinOp)):
+                    out.append((q, ast.keyword(arg="funcname", value=v)))
+            elif isinstance(n, ast.Assign) and len(n.targets) == 1 and isinstance(n.targets[0], ast.Name) \
+                    and isinstance(n.value, (ast.JoinedStr, ast.BinOp)) and "__name__" in un(n.value) and "type_number" in un(n.value):
                 out.append((q, n))
     return out
 
@@ -91,8 +94,6 @@ def dominates_in_block(a, b):
 def check_name_injective(ctx, repo):
     # is the name order-sensitive in the operand keys at its source?
     sources = name_sources(repo)
-    if not sources:
-        raise Unknown("codegen.do_codegen#funcname", "no function-name construction found")
     insensitive = []
     for q, node in sources:
         value = node.value
@@ -142,6 +143,8 @@ def check_name_injective(ctx, repo):
                         fresh = n
             if fresh is not None:
                 ctx.ok(c, st, injective_by="fresh token: " + un(fresh), no_eviction="C10.no-eviction")
+            elif not sources:
+                raise Unknown(c, "no fresh token and no recognisable construction of the generated function's name", st)
             elif insensitive:
                 q0, node0, why = insensitive[0]
                 ctx.violation(c,
